@@ -134,16 +134,25 @@ def r1(ctx):
                  'Open(); Close() before the spawned greenlet runs: the connection is then created and opened after the last holder closed, and nobody closes it')
   ctx.ob('C16.R1', o, 'the first Open opens the sink through _Get on a deferred greenlet', n_get >= 1, 'no deferred _Get() found in Open', whyo)
   c = prog.func(SP, 'SingletonPoolSink.Close')
+  # N = holders on entry (symbolic).  The singleton's count is NOT clamped (a surplus Close makes it negative), so "no holder left"
+  # has to be tested as new count <= 0: with == 0 a count that was driven negative passes zero on the way up (Open) and never again on
+  # the way down, and the connection created lazily by a request is never closed
   for ev, ex in enum_paths(ctx, c):
-    dec = [i for i, e in enumerate(ev) if e.kind == 'stmt' and isinstance(e.node, ast.AugAssign) and U(e.node.target).replace(' ', '') == 'self._ref_count' and isinstance(e.node.op, ast.Sub)]
+    writes, cf = counter_run(ev, 'self._ref_count')
     closes = [i for i, e in enumerate(ev) if e.kind == 'call' and call_attr(e.node) == 'Close']
     fs = facts(ev)
+    ok_dec = [v for _, v in writes] == [(1, -1)]
+    has_sink = ('self.next_sink', True) in fs
+    no_sink = ('self.next_sink', False) in fs or ('notself.next_sink', True) in fs
     if closes:
-      ok = len(dec) == 1 and dec[0] < closes[0] and (('self._ref_count<=0', True) in fs or ('self._ref_count==0', True) in fs) and ('self.next_sink', True) in fs
+      ok = ok_dec and writes[0][0] < closes[0] and counter_entails(cf, '<=', 1) and has_sink
       clr = [e for e in ev if e.kind == 'stmt' and isinstance(e.node, ast.Assign) and 'self.next_sink' in [U(t) for t in (e.node.targets[0].elts if isinstance(e.node.targets[0], ast.Tuple) else e.node.targets)]]
-      ctx.ob('C16.R1', c, 'underlying sink closed only when the count drops to zero, then detached', ok and bool(clr), 'close path facts %s' % fs, whyo)
+      ctx.ob('C16.R1', c, 'underlying sink closed only when the count drops to zero, then detached', ok and bool(clr),
+             'close path: count written %s, knows %s about the holders on entry' % ([v for _, v in writes], [(r_, k_) for _, r_, k_ in cf]), whyo)
     else:
-      ctx.ob('C16.R1', c, 'Close drops one reference', len(dec) == 1, 'decrements: %d' % len(dec), whyo, nontrivial=False)
+      ctx.ob('C16.R1', c, 'Close drops one reference', ok_dec, 'count written %s' % [v for _, v in writes], whyo, nontrivial=False)
+      ctx.ob('C16.R1', c, 'the connection stays only while a holder is left (new count > 0) or there is none to close', no_sink or counter_entails(cf, '>', 1),
+             'a path keeps the connection open knowing only %s about the holders on entry (no sink: %s): with an unclamped count "== 0" is not "no holder left"' % ([(r_, k_) for _, r_, k_ in cf], no_sink), whyo)
 
 
 def _under_lock(f, lockname):
@@ -201,6 +210,20 @@ def r2(ctx):
       ok = ok and any(e.kind == 'stmt' and isinstance(e.node, ast.Assign) and U(e.node.targets[0]) == 'self._open_ar' and U(e.node.value) == 'None' for e in ev)
     ctx.ob('C16.R2', c, 'underlying Close exactly when the count dropped to 0', ok, 'closes %s, last holder=%s' % (closes, last), why)
   ctx.ob('C16.R2', c, 'Close has a count-0 early-return path', n_early >= 1, 'no path handles a surplus close', why)
+  # the count (and the shared open result) belong to Open and Close: nothing else -- a completion callback, a fault handler -- may reset them,
+  # the holders that already opened will still close
+  rc = prog.cls(SK, 'RefCountedSink')
+  writers = {}
+  for m_ in rc.methods.values():
+    for st in ast.walk(m_.node):
+      tg = st.targets if isinstance(st, ast.Assign) else [st.target] if isinstance(st, ast.AugAssign) else []
+      for t_ in tg:
+        for x in (t_.elts if isinstance(t_, ast.Tuple) else [t_]):
+          if U(x) in ('self._ref_count', 'self._open_ar'):
+            writers.setdefault(U(x), set()).add(m_.name)
+  okw = writers.get('self._ref_count', set()) <= {'__init__', 'Open', 'Close'} and writers.get('self._open_ar', set()) <= {'__init__', 'Open', 'Close'}
+  ctx.ob('C16.R2', rc, 'the reference count and the shared open result are written only by Open and Close', okw,
+         'writers: %s' % dict((k, sorted(v)) for k, v in writers.items()), why)
   of = prog.func(SK, 'RefCountedSink.on_faulted')
   ctx.ob('C16.R2', of, 'fault signal delegates to the underlying sink', U(of.node.body[-1]).replace(' ', '') == 'returnself.next_sink.on_faulted', 'on_faulted changed',
          'holders must see faults of the shared connection', nontrivial=False)
